@@ -50,7 +50,11 @@ class C13(Prop):
         redir = C.read_jsonl(p2)
         if rc != 0 or not redir:
             raise RuntimeError("C13 redirect harness did not run: rc=%s\n%s" % (rc, out[-2000:]))
-        return {"open": [r for r in rows if r["kind"] == "open"], "route": [r for r in rows if r["kind"] == "route"], "redirect": redir}
+        rc, out, p3, dt = C.go_test_overlay(ctx.work, "./agent/websockets/", "TestVerifC13Host$", OVERLAY, "c13host.jsonl", ctx.seed, ctx.tier, timeout=600)
+        hostrows = C.read_jsonl(p3)
+        if rc != 0 or not hostrows:
+            raise RuntimeError("C13 host harness did not run: rc=%s\n%s" % (rc, out[-2000:]))
+        return {"open": [r for r in rows if r["kind"] == "open"], "route": [r for r in rows if r["kind"] == "route"], "redirect": redir, "host": hostrows}
 
     @staticmethod
     def _cls(r):
@@ -67,6 +71,14 @@ class C13(Prop):
 
     def oracle(self, ctx, obs):
         res = []
+        for r in obs.get("host", []):
+            rp = {"driver": "TestVerifC13Host: POST <shim>/open (Host: %s) with this body; the backend records the websocket handshake it receives" % r["request_host"], "observed": r}
+            want = r["request_host"] if r["rewrite_host"] else r["backend"]
+            for hs in r.get("handshakes") or []:
+                if hs["host"] != want:
+                    res.append(("handshake-host-taken-from-open-body", "the backend's handshake carried Host %r (rewrite-websocket-host=%s: expected %r); the URL in the open body may contribute path and query only" % (hs["host"], r["rewrite_host"], want), rp))
+                elif r.get("body_uri") and not r.get("body_opaque") and hs["uri"] != r["body_uri"]:
+                    res.append(("handshake-uri-differs-from-open-body", "the backend's handshake asked for %r, the open body says %r" % (hs["uri"], r["body_uri"]), rp))
         for r in obs["open"]:
             bad = [a for a in r["dialed"] if a != BACKEND]
             rp = {"driver": "TestVerifC13: POST <shim>/open with this body; recording NetDialContext", "body": r["body_text"][:200], "parsed": r.get("parsed"), "dialed": r["dialed"], "status": r["status"]}
@@ -111,13 +123,11 @@ class C13(Prop):
             code = 1 if r["wrapped_saw"] else 2 if r["status"] == 301 else 0
             items.append("route_case_ok %s %s %s %d%%Z" % (coq_str(PREFIX), coq_str(r["path"]), C.blit(is_clean(r["path"].replace("%2F", "/"))), code))
             rows.append(r)
-        body = "\n".join(["From Coq Require Import ZArith String List Bool Ascii.", "From IP Require Import Websockets.Target Websockets.TargetCheck Lib.Util.", "Import ListNotations.", "Open Scope string_scope.", "Open Scope list_scope.",
-                          "Definition oks : list bool := " + C.llit(items) + ".",
-                          "Definition verif_result : list Z := Eval vm_compute in (bad_indices (fun b : bool => b) 0%Z oks)."])
-        txt, out, dt = C.eval_cases(ctx.work, "cases_c13", body)
-        if txt is None:
-            return [("cases_c13.v (model evaluation)", "coqc failed: " + out[-600:], {})], 0, {}
-        mism = [("TargetCheck.open_case_ok/route_case_ok", "the dial / routing observed differs from the model's", {k: v for k, v in rows[i].items() if k != "body"}) for i in C.parse_z_list(txt)]
+        header = ["From Coq Require Import ZArith String List Bool Ascii.", "From IP Require Import Websockets.Target Websockets.TargetCheck Lib.Util.", "Import ListNotations.", "Open Scope string_scope.", "Open Scope list_scope."]
+        bad, dt = C.eval_bool_items(ctx.work, "cases_c13", header, items, shard=2000)
+        if bad is None:
+            return [("cases_c13.v (model evaluation)", "coqc failed: " + dt[-600:], {})], 0, {}
+        mism = [("TargetCheck.open_case_ok/route_case_ok", "the dial / routing observed differs from the model's", {k: v for k, v in rows[i].items() if k != "body"}) for i in bad]
         return mism, len(items), {"coqc_s": round(dt, 2), "cases": len(items)}
 
     def coverage(self, ctx, obs):
